@@ -86,6 +86,14 @@ def one(ctx, rng, xr, model, dmod, disp, direct):
     if model == "ndbc":
         kw = {"directional": bool(rng.random() < 0.75), "dd": float(rng.choice([10.0, 5.0, 20.0, 45.0]))}
         key += "|directional=%s" % kw["directional"]
+    if model != "ndbc" and rng.random() < 0.3:
+        # the native variables held in another dimension order (e.g. direction before frequency): pairing of the
+        # conversion factors with the axes must go by dimension name
+        for vn in list(ds.data_vars):
+            if ds[vn].ndim >= 3:
+                od_ = [str(d_) for d_ in rng.permutation(list(ds[vn].dims))]
+                ds[vn] = ds[vn].transpose(*od_).copy(data=np.ascontiguousarray(ds[vn].transpose(*od_).values))
+        key += "|dims-permuted"
     if rng.random() < 0.3:
         # history: a sibling dataset of the same model and shape - same first/last value of every monotonic
         # 1-D float axis, other interior values, other data - is converted first (caches keyed on too little)
